@@ -53,6 +53,9 @@ LAX_TABLE = [
     ("int", (("multiple_of", "Lax(3)"),)), ("float", (("multiple_of", "Lax(0.5)"),)), ("Decimal", (("multiple_of", "Lax(2)"),)),
     ("int", (("multiple_of", "Lax(10)"),)),
     ("int", (("const", "Lax(1)"),)), ("str", (("const", "Lax('a')"),)), ("int", (("enum", "Lax([1, 2, 3])"),)),
+    # untyped rules: the lax constant replaces every input, also one that is equal to it but of another type
+    (None, (("const", "Lax(1)"),)), (None, (("const", "Lax(0)"),)), (None, (("const", "Lax(True)"),)),
+    (None, (("const", "Lax('red')"),)), (None, (("enum", "Lax([1, 'a'])"),)),
     ("str", (("enum", "Lax(['a', 'b'])"),)),
     ("list", (("unique_items", "Lax(True)"),)), ("tuple", (("unique_items", "Lax(True)"),)),
     ("int", (("max_length", "Lax(2)"),)), ("float", (("max_digits", "Lax(3)"), ("decimal_places", "Lax(1)"))),
